@@ -343,6 +343,13 @@ def parser_semantics(ctx, rule):
              # a real-time message inside a sysex that has NOT ended yet is deliverable at once, whatever is still open
              ('clock inside an unfinished sysex', [0xf0, d0, 0xf8], ['clock']),
              ('note_on, stop, then an unfinished sysex', [0x93, n1, v1, 0xfc, 0xf0, d0], ['note_on', 'stop'])]
+    # the same message several times in a row is that many messages (keep-alives and clock ticks are counted by receivers)
+    for sb, tname in ((0xf8, 'clock'), (0xfa, 'start'), (0xfb, 'continue'), (0xfc, 'stop'), (0xfe, 'active_sensing'), (0xff, 'reset'), (0xf6, 'tune_request')):
+        tails.append((f'{tname} twice', [sb, sb], [tname, tname]))
+    tails += [('three active_sensing after a note_on', [0x93, n1, v1, 0xfe, 0xfe, 0xfe], ['note_on'] + ['active_sensing'] * 3),
+              ('the same note_on twice', [0x93, n1, v1, 0x93, n1, v1], ['note_on', 'note_on']),
+              ('the same sysex twice', [0xf0, d0, 0xf7, 0xf0, d0, 0xf7], ['sysex', 'sysex']),
+              ('active_sensing, clock, active_sensing', [0xfe, 0xf8, 0xfe], ['active_sensing', 'clock', 'active_sensing'])]
     for label, st, types in tails:
         for how in ('feed', 'bytes', 'ctor'):
             def thunk():
@@ -571,9 +578,21 @@ def queue_attrs(ctx):
     """Names of the attributes that hold message queues: whatever a constructor in mido/ binds to a deque(...) (names are
     taken from the code, so a consistent rename of a private attribute changes nothing), plus the public Parser.messages."""
     names = {'messages'}
-    for fn in ctx.p.all_functions():
+    fns = list(ctx.p.all_functions())
+    # queue factories: a name bound to deque itself, or a function whose every return is a deque(...) / factory call
+    makers = {'deque'}
+    for mod in ctx.p.modules.values():
+        for st in mod.tree.body:
+            if isinstance(st, ast.Assign) and isinstance(st.value, ast.Name) and st.value.id == 'deque':
+                makers.update(t.id for t in st.targets if isinstance(t, ast.Name))
+    for _ in range(3):
+        for fn in fns:
+            rets = [n for n in astq.walk_shallow(fn.node) if isinstance(n, ast.Return)]
+            if rets and all(isinstance(r.value, ast.Call) and unparse(r.value.func).split('.')[-1] in makers for r in rets):
+                makers.add(fn.node.name)
+    for fn in fns:
         for attr, val, _ in _self_stores(fn):
-            if isinstance(val, ast.Call) and unparse(val.func).split('.')[-1] == 'deque':
+            if isinstance(val, ast.Call) and unparse(val.func).split('.')[-1] in makers:
                 names.add(attr)
     return names
 
